@@ -96,10 +96,12 @@ func init() {
 		Units: []string{"fasthttp.(*RequestHeader).parse", "fasthttp.(*RequestHeader).Read", "fasthttp.(*RequestHeader).tryRead", "fasthttp.(*headerScanner)", "fasthttp.readRawHeaders", "fasthttp.parseContentLength", "fasthttp.nextLine", "bufio.(*Reader)"},
 		Runs: []Run{
 			{Pkg: "fasthttp", Func: "vhC01HeadFraming", Quick: map[string]int{"fields": 3, "clDigits": 2}, Thorough: map[string]int{"fields": 4, "clDigits": 3}},
+			{Pkg: "fasthttp", Func: "vhC01ChunkedBody", Quick: map[string]int{"holeLen": 3}, Thorough: map[string]int{"holeLen": 4}, PathCap: 1500000},
 		},
 		Assume: []string{
 			"head-level obligation only: input family = POST head (HTTP/1.1 or 1.0) with up to `fields` framing fields drawn from {Content-Length: <symbolic bytes>, Transfer-Encoding: chunked | identity | gzip, chunked | chunked, gzip, Connection: keep-alive}",
-			"composition assumed, not encoded: Server.serveConnCounted closes the connection when RequestHeader.Read fails or Request.Header.ConnectionClose() is true (server.go); body/chunk decoding, pipelining through the serve loop and the server option matrix are outside this check",
+			"composition assumed for the head-level harness, not encoded: Server.serveConnCounted closes the connection when RequestHeader.Read fails or Request.Header.ConnectionClose() is true (server.go)",
+			"vhC01ChunkedBody runs the real serve loop (scripted connection, MaxRequestBodySize 32) on a chunked POST with one hole of arbitrary bytes — the first chunk-size line (≤ holeLen bytes), the two bytes after the chunk data, or ≤ holeLen bytes after the last-chunk size — followed by a second request, in one or two segments, ReduceMemoryUsage on/off; oracle: an independent RFC 9112 §7.1 chunk reader (harness/fasthttp/c01.go); the boundary is compared up to empty lines in front of the next request; DisableHeaderNamesNormalizing, GetOnly, DisablePreParseMultipartForm and small ReadBufferSize are outside",
 		},
 	})
 	register(&Property{
